@@ -71,6 +71,9 @@ def gen(ctx):
             yield dict(kind="ev1", hist=hist, dtype="int32", scale=1, r=1, rule=rng.choice(["nks:30", "nks:110", "hash:3:2:1:0"]),
                        memo=rng.choice(["False", "True", "recursive_lit"]), pred="steps:%d" % K, fuel=K + 5)
             yield dict(kind="ev1", hist=hist, dtype="int32", scale=1, r=1, rule="nks:30", memo="False", pred="lenle:%d" % K, fuel=K + 5)
+    for _ in range(ctx.n(30, 300)):
+        yield dict(kind="ufp2", dim=rng.choice([1, 1, 2]), N=rng.randint(3, 9), R=rng.choice([0, 4, 12, 128, 204, 254]),       # rules that settle from every state
+                   memo=rng.choice(["False", "True", "recursive_lit"]), seed=rng.randrange(10 ** 6))
     # the rule's arguments are the same kind of values on the callable-timesteps path as on the fixed path
     for N in ([70] if ctx.tier == "quick" else [64, 70, 96]):
         for memo in ("False", "True", "recursive_lit"):
@@ -118,7 +121,7 @@ def _mod(c):
 
 
 def line(c):
-    if c["kind"] == "slow":
+    if c["kind"] in ("slow", "ufp2"):
         return None
     m = _mod(c)
     return (m.line(c) if m else ev1.line(c)) + " consults=1"
@@ -153,7 +156,7 @@ def run_slow(c):
 
 
 def impl(c):
-    if c["kind"] == "slow":
+    if c["kind"] in ("slow", "ufp2"):
         return "n/a"
     m = _mod(c)
     if m:
@@ -181,7 +184,41 @@ def compare(c, a, b):
     return strip_calls_keep_consults(a) == strip_calls_keep_consults(b)
 
 
+def oracle_ufp2(c):
+    """ONE until_fixed_point() object used for several evolutions: every call is judged on the states of that call."""
+    import cellpylib as cpl
+    rng = np.random.RandomState(c["seed"])
+    memo = ev1.memo_value(c["memo"])
+    ufp = cpl.until_fixed_point()
+    if c["dim"] == 1:
+        rule = lambda n, cc, t: cpl.nks_rule(n, c["R"])                                           # noqa: E731
+        ev = lambda a: cpl.evolve(a, timesteps=ufp, apply_rule=rule, r=1, memoize=memo)              # noqa: E731
+        ca = rng.randint(0, 2, size=(1, c["N"])).astype(np.int32)
+    else:
+        rule = (lambda n, cc, t: int(np.sum(n) >= 1)) if c["R"] % 8 else (lambda n, cc, t: int(np.sum(n) == n.size))   # monotone: settles  # noqa: E731
+        ev = lambda a: cpl.evolve2d(a, timesteps=ufp, apply_rule=rule, r=1, memoize=memo)            # noqa: E731
+        ca = rng.randint(0, 2, size=(1, 3, c["N"])).astype(np.int32)
+    first = ev(ca)
+    if len(first) < 2 or first[-1].tobytes() != first[-2].tobytes():
+        return None if len(first) >= 2 else "until_fixed_point declined at once"     # (rules that do not settle within the cap are not generated)
+    # continue from where the first evolution ended: at least one step is taken, and it ends at once (the state rests)
+    second = ev(first)
+    if len(second) != len(first) + 1:
+        return "a reused until_fixed_point() took %d steps when continuing a settled %dD evolution (one step reaches the verdict)" % (
+            len(second) - len(first), c["dim"])
+    # and a fresh automaton evolved with the same object behaves as with a new one
+    other = rng.randint(0, 2, size=ca.shape).astype(np.int32)
+    a = ev(other)
+    b = (cpl.evolve(other, timesteps=cpl.until_fixed_point(), apply_rule=rule, r=1, memoize=memo) if c["dim"] == 1 else
+         cpl.evolve2d(other, timesteps=cpl.until_fixed_point(), apply_rule=rule, r=1, memoize=memo))
+    if a.shape != b.shape or a.tobytes() != b.tobytes():
+        return "a reused until_fixed_point() object gives a different evolution than a fresh one"
+    return None
+
+
 def oracle(c):
+    if c["kind"] == "ufp2":
+        return oracle_ufp2(c)
     if c["kind"] == "slow":
         ca, res = run_slow(c)
         rows = [r.tobytes() for r in res]
